@@ -21,20 +21,28 @@ Statement shapes (S = translated statement list, `self.L` = a link attribute):
   self.L.<other>(...)                                -> Io line
   super().open() / super().close() / super().<m>()   -> inlined body of the next definition in the MRO
   self._check_is_open() / self._check_is_closed()    -> CheckOpen / CheckClosed when they resolve to QMI_Instrument's
-                                                        definitions (whose shape is verified, see base_facts)
+                                                        definitions (whatever their text: the harness checks on every run
+                                                        that the real methods BEHAVE like these primitives, and likewise
+                                                        QMI_Instrument.open/close and QMI_Transport.open/close)
   self._is_open = True / False                       -> SetOpen / SetClosed
   self.<helper>(...)                                 -> inlined (depth <= 3) if the helper (transitively) mentions
                                                         self.L.open/close, super().open/close, self._is_open,
                                                         self.open/close; otherwise Io line
   x = <expr> / x += <expr> / any other expression    -> Skip if <expr> is pure, else Io line
   if T: A else: B                                    -> [Io line if T impure;] Choice A B   (static for link-None tests)
-  try: B except E1: H1 ... [finally: F]              -> Try B (Choice H1' (Choice ... [Raise])) false, Hi' = Hi [; Raise
-                                                        if Hi ends in a bare `raise`]; the trailing `Raise` alternative
+  try: B except E1: H1 ... [else: E] [finally: F]    -> Try B (Choice H1 (Choice ... [Raise])) false; a bare `raise` anywhere
+                                                        inside a handler is Raise; the trailing `Raise` alternative
                                                         (exception not matched) is omitted only if some clause is bare,
-                                                        `Exception` or `BaseException`;  finally -> Finally (...) F
+                                                        `Exception` or `BaseException`;  else -> TryElse B (..) E (E runs only
+                                                        after B completed, its exceptions are not handled);
+                                                        finally -> Finally (...) F
   with E: B                                          -> Seq (Io line) (Finally B (Io line))
   raise ...                                          -> Raise
   return [pure]  as LAST statement of a function     -> Skip
+  if T: ..; return  (if/elif chains with early returns, in the tail of a function)
+                                                     -> Choice (A) (B ; rest): each branch gets its own continuation
+  x = <interpreted call> / return <interpreted call> -> as the call itself
+  global / nonlocal / nested def without interpreted calls -> Skip;   import / del -> Io
   assert T                                           -> Io line
   for / while without any interpreted call           -> Io line
   while True: try: self.L.open(); return  except ..: <no interpreted call>  ; <no interpreted call>
